@@ -1,5 +1,7 @@
 import PynModel.Kernels.Threshold
 import PynModel.Kernels.Nan
+import PynProofs.Threshold
+import PynProps.C15
 /-!
 # C07 — threshold and dropna keep the right samples and a support that separates them
 Models: `Pyn.jitthreshold` (checked reads: the Python source does not guard them) and
@@ -12,8 +14,8 @@ any mask of positive length (loop invariant `CoverInv`: closed runs + the run st
 (`removeNan_runs`: every new start / end is a kept sample, as many starts as ends).  Threshold: the model follows the kernel as repaired by `fix:` d92f793 (epoch tracking), 6abb03b (epoch boundary
 before the last sample) and efb22ea (empty series); the former findings are kept as regression witnesses, the
 remaining **known finding** (a kept sample that is alone in its support interval gets a zero-length interval,
-which the constructor drops) is proved on the model as a witness; the positive statement is decided by the oracle +
-correspondence run only.
+which the constructor drops) is proved on the model as a witness; the positive statement is `threshold_correct` below (kept samples exactly inside the
+new support, new support inside the old one, for every length ≥ 1 and any number of support intervals).
 -/
 namespace Pyn.C07
 open Pyn
@@ -316,6 +318,32 @@ theorem removeNan_cover (nan : Array Bool) (hn : 0 < nan.size) (i : Nat) (hi : i
 
 -- non-vacuity: NaN runs at the start, in the middle, isolated kept singletons
 example : jitremoveNan #[true, false, false, true, false, true, true, false] (by decide) = (#[1, 4, 7], #[2, 4, 7]) := by decide +kernel
+
+/-! ### threshold: exactly the kept samples, inside the old support -/
+
+/-- **C07 for threshold, kernel level** (times doubled so that midpoints stay integral): for a strictly increasing series
+lying inside a canonical support — any length ≥ 1, any keep/reject pattern, one or many support intervals, samples
+alone in their interval — `jitthreshold` returns (no out-of-range read), with as many starts as ends, such that
+* sample `i` is kept iff `2·t[i]` lies in one of the returned closed intervals: the new support contains every kept
+  sample and no rejected sample;
+* every returned interval lies inside ONE interval of the old support: nothing extends beyond it or bridges a gap.
+(`threshold_cover`, `threshold_inside` in `PynProofs/Threshold.lean`, `C15.threshold_safe`.) -/
+theorem threshold_correct (ts : Array Int) (ix : Array Bool) (st en : Array Int) (hm : st.size = en.size)
+    (hc : Canon st en hm) (hs : StrictInc ts) (hix : ix.size = ts.size) (hn : 0 < ts.size)
+    (hin : ∀ i, (h : i < ts.size) → InIv st en hm ts[i]) :
+    ∃ out, jitthreshold ts ix st en = .ok out ∧ out.1.size = out.2.size ∧
+      (∀ i, (hi : i < ts.size) → (ix[i]'(by omega) = true ↔ ClosedV out.1 out.2 (2 * ts[i]))) ∧
+      ClosedIn st en hm out.1 out.2 := by
+  obtain ⟨out, hout⟩ := C15.threshold_safe ts ix st en hm hc hix hin
+  obtain ⟨h1, h2⟩ := threshold_cover ts ix st en hs hix hn out hout
+  exact ⟨out, hout, h1, h2, threshold_inside ts ix st en hm hc hs hix hn hin out hout⟩
+
+-- non-vacuity: the input of the repaired multi-epoch finding meets every hypothesis
+example : Canon #[0, 10, 20] #[4, 14, 24] rfl ∧ StrictInc #[10, 11, 12, 20, 21] := by
+  refine ⟨⟨fun k h => ?_, fun k h => ?_⟩, fun i h => ?_⟩
+  · simp at h; rcases k with _ | _ | _ | k <;> simp at h ⊢
+  · simp at h; rcases k with _ | _ | k <;> simp at h ⊢ <;> omega
+  · simp at h; rcases i with _ | _ | _ | _ | i <;> simp at h ⊢ <;> omega
 
 /-! ### known findings, proved on the model -/
 
